@@ -20,6 +20,10 @@ type Relay struct {
 	chunk  int // re-segmentation: write at most chunk bytes at a time (0 = as received)
 	closed bool
 	refuse bool
+	// RewriteUp: bytes travelling upstream (dialer -> acceptor) pass through this function (link index, chunk) before they go on
+	RewriteUp func(link int, chunk []byte) []byte
+	// RewriteDown: the same for the other direction (acceptor -> dialer)
+	RewriteDown func(link int, chunk []byte) []byte
 	// HoldNew: links accepted from now on start with their upstream (dialer -> acceptor) direction held
 	HoldNewUp bool
 	// Record: keep a copy of every byte that travels upstream (dialer -> acceptor), per link
@@ -101,11 +105,21 @@ func (lk *Link) read(src net.Conn, p *pipe) {
 	for {
 		n, err := src.Read(buf)
 		if n > 0 {
+			data := buf[:n]
+			if f := lk.r.RewriteUp; f != nil && p == lk.up {
+				// an attacker on the path: what the dialer sent is replaced by what the function returns
+				data = f(lk.idx, append([]byte{}, data...))
+				n = len(data)
+			}
+			if f := lk.r.RewriteDown; f != nil && p == lk.down {
+				data = f(lk.idx, append([]byte{}, data...))
+				n = len(data)
+			}
 			p.mu.Lock()
-			p.buf = append(p.buf, buf[:n]...)
+			p.buf = append(p.buf, data...)
 			p.bytes += int64(n)
 			if lk.r.Record && p == lk.up {
-				p.rec = append(p.rec, buf[:n]...)
+				p.rec = append(p.rec, data...)
 			}
 			p.cond.Broadcast()
 			p.mu.Unlock()
